@@ -29,6 +29,9 @@ const (
 	findCurOver   = "count-shortcut-cursor-overflow"   // fixed 75824dd
 	findDotted    = "dotted-field-lookup-stops-early"  // fixed 964544a (listed under C01)
 	findExprZ     = "where-expr-lacks-z"               // fixed c3b3792
+	findExprInf   = "where-expr-nonfinite-field-is-string" // fixed c82202c
+	findPadded    = "field-name-padded-unreadable"         // fixed 067660e (listed under C01)
+	findShadow    = "field-dotted-name-shadowed"           // fixed cba05d0 (listed under C01)
 )
 
 const big = "1000000" // an explicit LIMIT no generated collection reaches (the default limit is 100)
@@ -375,7 +378,7 @@ func probe(t *testing.T, c *ev.Collector, id string, fails func() string) {
 func TestC12_Probes(t *testing.T) {
 	c := ev.New("C12", "probes", "exploration")
 	t.Cleanup(c.Flush)
-	c.Rule("deterministic regression probes, one per finding of this property: the repaired ones (glob-limits-leading-meta, search-count-shortcut, count-shortcut-ignores-limit) must pass, as must nan-field-matches-everything, count-shortcut-cursor-overflow, dotted-field-lookup-stops-early and where-expr-lacks-z (found by code readers, repaired); the suspected ones (glob-limits-0xff, where-comparand-lowercased) are reported under their id, or as KNOWN-FINDING once listed")
+	c.Rule("deterministic regression probes, one per finding of this property: the repaired ones (glob-limits-leading-meta, search-count-shortcut, count-shortcut-ignores-limit) must pass, as must nan-field-matches-everything, count-shortcut-cursor-overflow, dotted-field-lookup-stops-early, where-expr-lacks-z, where-expr-nonfinite-field-is-string, field-name-padded-unreadable and field-dotted-name-shadowed (found by code readers, repaired); the suspected ones (glob-limits-0xff, where-comparand-lowercased) are reported under their id, or as KNOWN-FINDING once listed")
 	runProbes(t, c)
 }
 
